@@ -708,16 +708,17 @@ def transform_journal(journal):
            account,
            {summary_func}(position),
            {summary_func}(balance)
-        {where}
 
-    """.format(where=('WHERE account ~ "{}"'.format(journal.account)
-                      if journal.account
-                      else ''),
-               summary_func=journal.summary_func or ''))
+    """.format(summary_func=journal.summary_func or ''))
+
+    # Build the condition as an AST node: formatting the pattern into the
+    # statement text breaks on (or is subverted by) quote characters.
+    where = (ast.Match(ast.Column('account'), ast.Constant(journal.account))
+             if journal.account else None)
 
     return ast.Select(cooked_select.targets,
                       journal.from_clause,
-                      cooked_select.where_clause,
+                      where,
                       None, None, None, None, None)
 
 
